@@ -224,6 +224,26 @@ func C14(c *core.Ctx) {
 			}}
 			g2 := core.GateDeep(fn, neg1, pos(typLt), pos(lenLt), neg(notComp))
 			okNeg := len(neg1) > 0 && g2.OK && g2.PerLit[0] > 0 && g2.PerLit[1] > 0
+			// 0 is returned only as the outcome of the byte comparison (no shortcut that
+			// declares two components equal before type, length and bytes were compared)
+			{
+				zero := ""
+				core.Instrs(fn, func(in ssa.Instruction) {
+					if r, ok := in.(*ssa.Return); ok {
+						if k, isC := core.ConstInt(r.Results[0]); isC && k == 0 {
+							zero = c.Pos(r)
+						}
+						if ph, isPhi := core.Strip(r.Results[0]).(*ssa.Phi); isPhi {
+							for _, e := range ph.Edges {
+								if k, isC := core.ConstInt(e); isC && k == 0 {
+									zero = c.Pos(r)
+								}
+							}
+						}
+					}
+				})
+				c.Decide(zero == "", "R14.1", "component-Compare-zero-only-from-bytes", p.Pos(fn.Pos()), "Compare returns 0 only as the result of the byte comparison", "Component.Compare returns the constant 0 (at "+zero+") on a path that has not compared type, length and bytes: two components that Equal, Bytes and Hash tell apart (a value and its truncation in the same buffer) compare as equal")
+			}
 			c.Decide(okPos && okNeg, "R14.1", "component-Compare-sign", p.Pos(fn.Pos()), "-1 only under 'lhs smaller' (or non-component rhs), +1 only when no 'lhs smaller' test held", "Component.Compare returns the wrong sign for a type or length difference (canonical order reversed for that criterion)")
 			// the type criterion is decided before the length criterion
 			typLeq := cmpAtom2("typ<=", "Typ", false, leqOps)
@@ -487,6 +507,76 @@ func C14(c *core.Ctx) {
 			}
 		}
 		c.Decide(ok, "R14.1", "name-"+fnm+"-feeds-every-component", p.Pos(fn.Pos()), "one Reset, then HashInto of every component in order", "Name."+fnm+" does not reset once and then feed every component: the hash is not a function of the name (or of the prefix)")
+		if fnm == "Hash" {
+			// every result of Name.Hash is the sum of the hasher that was fed this way: a
+			// second route to a result (a fast path for short names through another
+			// routine) must produce, for the same name, what PrefixHash records — which
+			// holds by construction only if it is the same computation
+			otherRoute := ""
+			core.Instrs(fn, func(in ssa.Instruction) {
+				r, isR := in.(*ssa.Return)
+				if !isR || len(r.Results) != 1 {
+					return
+				}
+				var chk func(v ssa.Value, d int)
+				chk = func(v ssa.Value, d int) {
+					v = core.Strip(v)
+					if d > 4 {
+						return
+					}
+					switch y := v.(type) {
+					case *ssa.Phi:
+						for _, e := range y.Edges {
+							chk(e, d+1)
+						}
+					case *ssa.Call:
+						if y.Call.IsInvoke() && y.Call.Method.Name() == "Sum64" {
+							return
+						}
+						// a helper of the package that computes the sum the same way: it
+						// feeds through Component.HashInto and returns the hasher's Sum64
+						if g := y.Call.StaticCallee(); g != nil && g.Blocks != nil && g.Pkg == fn.Pkg && len(core.FindCalls(g, core.CalleeID{Pkg: "std/encoding", Recv: "Component", Name: "HashInto"})) > 0 {
+							same := true
+							core.Instrs(g, func(in2 ssa.Instruction) {
+								if r2, isR2 := in2.(*ssa.Return); isR2 && len(r2.Results) == 1 {
+									v2 := core.Strip(r2.Results[0])
+									if u, isU := v2.(*ssa.UnOp); isU {
+										if al, isAl := u.X.(*ssa.Alloc); isAl {
+											for _, ref := range core.Refs(al) {
+												if st, isSt := ref.(*ssa.Store); isSt && st.Addr == ssa.Value(al) {
+													v2 = core.Strip(st.Val)
+												}
+											}
+										}
+									}
+									if cl2, isC2 := v2.(*ssa.Call); !isC2 || !cl2.Call.IsInvoke() || cl2.Call.Method.Name() != "Sum64" {
+										same = false
+									}
+								}
+							})
+							if same {
+								return
+							}
+						}
+						otherRoute = c.Pos(y)
+					case *ssa.UnOp: // a spilled result (defer)
+						if al, isAl := y.X.(*ssa.Alloc); isAl {
+							for _, ref := range core.Refs(al) {
+								if st, isSt := ref.(*ssa.Store); isSt && st.Addr == ssa.Value(al) {
+									chk(st.Val, d+1)
+								}
+							}
+							return
+						}
+						otherRoute = c.Pos(r)
+					default:
+						otherRoute = c.Pos(r)
+					}
+				}
+				chk(r.Results[0], 0)
+			})
+			c.Decide(otherRoute == "", "R14.1", "name-Hash-single-route", p.Pos(fn.Pos()), "every result of Name.Hash is the Sum64 of the hasher the components were fed into", "Name.Hash has a second route to its result (at "+otherRoute+") that does not go through the hasher the components are fed into: for the names taking that route the hash of the i-component prefix need not be what PrefixHash records at slot i — Interests and the Data that answers them are then dispatched to different forwarding threads")
+		}
 		if fnm == "PrefixHash" && ok {
 			// ret[i+1] = h.Sum64() after each component; ret[0] before the loop
 			nStore, okStore := 0, true
